@@ -73,6 +73,14 @@ func drawBase(r *Rng) string {
 func SimC04(c *CheckCtx, i int, r *Rng) error {
 	base := drawBase(r)
 	m, names, gens, _ := drawWorld(r, base)
+	real := i%4 == 3
+	if real {
+		// the real devpkg generators: byte-determinism and the fixed point of the
+		// generators users actually run (C17's "same on the first and on later runs")
+		m, names = DrawRealModule(r, 1)
+		gens = RealGens(names)
+		c.Env.Stats.Add("probe/real-generators-world", 1)
+	}
 	// bias: map-valued arguments exercise the dumper's key order
 	if r.P(0.4) {
 		for gi := range gens {
@@ -86,6 +94,9 @@ func SimC04(c *CheckCtx, i int, r *Rng) error {
 	}
 	eps := drawEntrypoints(r, m)
 	args := proto.GenArgs{Entrypoint: spell(r, m, eps), Base: base, All: r.P(0.8), Globals: drawGlobals(r, names)}
+	if real {
+		args.Globals = nil
+	}
 	mkRun := func(sched simrt.Schedule, entry []string, fresh bool) *RunOp {
 		a := args
 		a.Entrypoint = entry
